@@ -125,7 +125,16 @@ pub fn check_ws(s: &str, cfg: &Cfg) -> Vec<Failure> {
                             format!("output line ends in a blank ({:?}) at offset {last_pos}: {:?}", last, short(line, 80)),
                         )
                         .fact(format!("in:{holder}"))
-                        .fact(if before_off { "gap-before-toggle" } else { "not-before-toggle" }),
+                        .fact(if before_off { "gap-before-toggle" } else { "not-before-toggle" })
+                        .fact(
+                            if toks.iter().any(|t| {
+                                last_pos >= t.start && last_pos < t.end && t.kind.is_comment() && toggle::parse_toggle(t.text(s)).is_some()
+                            }) {
+                                "blank-inside-toggle-comment"
+                            } else {
+                                "blank-not-in-toggle-comment"
+                            },
+                        ),
                     );
                     done1 = true;
                 }
